@@ -68,11 +68,6 @@ func findIndexedBy(e *SExpr, v string) ast.Expr {
 			}
 			if ix, ok := n.(*ast.IndexExpr); ok {
 				if id, ok := ix.Index.(*ast.Ident); ok && id.Name == v && !mentions(ix.X, v) && !hasHole(ix.X) {
-					if c, isCall := ix.X.(*ast.CallExpr); isCall {
-						if f, ok := c.Fun.(*ast.Ident); ok && (f.Name == "old" || f.Name == "prev") {
-							return true // state-dependent base: skip
-						}
-					}
 					found = ix.X
 					return false
 				}
